@@ -279,6 +279,12 @@ func (m *mTracker) ChannelModes(c, modes string, args ...string) *state.Channel 
 			} else if !on {
 				ch.modes.Limit = 0
 			}
+		case 'b', 'e', 'I':
+			// list modes (ban, exception, invite mask) are not part of the tracked
+			// state, but set or removed they come with a mask
+			if len(args) > 0 {
+				args = args[1:]
+			}
 		case 'q', 'a', 'o', 'h', 'v':
 			if len(args) > 0 {
 				if cp, ok := m.mem[[2]string{c, args[0]}]; ok {
